@@ -544,6 +544,7 @@ func generate(c *ctx, r *vh.Rng) {
 	// 3c. service-record streams; decoding into re-used objects
 	genSvcStreams(c, r)
 	genReuse(c, r)
+	genRefill(c, r)
 	// 4. histories: hidden shared state / aliasing between encodings and between decodings
 	genHistories(c, r)
 	// 5. observations outside the property's quantifier (registered types only): recorded, not judged
@@ -646,6 +647,10 @@ func runReplay(c *ctx, path string) {
 		switch rc.Op {
 		case "history":
 			replayHistory(c, rc)
+		case "refill":
+			c.runRefill(items[0].s, rc.Items[0].Rec, rc.Refill)
+		case "refill-stream":
+			c.replayRefillStream(items, rc.Order)
 		case "svc-stream":
 			c.checkSvcStream(items)
 		case "reuse":
